@@ -670,12 +670,21 @@ class C13(Prop):
             'done: no body/event/save starts afterwards, every engine task finishes without further arrivals within a '
             'bounded number of handles, the canceller sees CancelledError only, the cancelled run never hangs; '
             'non-trivial = the cancellation landed while the run was pending (outcome cancelled); distinct = '
-            '(case, crash point)')
+            '(case, crash point). A second arm (55 % of the cases) injects no cancellation: the run ends normally or by '
+            'a node failure under 3 schedules and the same post-conditions are checked; non-trivial there = external '
+            'completions were still outstanding when the run ended')
     budget_scale = 1.0
 
     def gen(self, rng):
         case = super().gen(rng)
-        case['scheds'] = case['scheds'][:1] if rng.random() < 0.3 else [{'seed': rng.randrange(1 << 40)}]
+        if rng.random() < 0.55:
+            # arm A: no cancellation - the run ends normally or by a node failure under 3 schedules; what is left
+            # behind is checked after each (cheap, many more executions per second than arm B)
+            case['scheds'] = [{'seed': rng.randrange(1 << 40)} for _ in range(3)]
+            case['base_only'] = True
+        else:
+            # arm B: one schedule, cancellation injected before every handle of that execution
+            case['scheds'] = case['scheds'][:1] if rng.random() < 0.3 else [{'seed': rng.randrange(1 << 40)}]
         if rng.random() < 0.35:
             case['em'] = [{'slow': rng.random() < 0.5}]
         if rng.random() < 0.25:
@@ -703,10 +712,14 @@ class C13(Prop):
         return vs
 
     def nontrivial(self, case, rec, refs):
+        if case.get('base_only'):
+            # the run ended while engine work was still outstanding (stragglers of an abandoned candidate, siblings of
+            # a failed node): there was something to clean up
+            return bool(rec.pending_at_end)
         return rec.outcomes[0][0] == 'cancelled'
 
     def evaluate(self, case, stats=None):
-        if case.get('cancel') is not None:
+        if case.get('cancel') is not None or case.get('base_only') or len(case['scheds']) > 1:
             return super().evaluate(case, stats)
         refs = self.refs(case)
         names = names_of(case['spec'])
